@@ -36,7 +36,7 @@ LEVEL_NOTE = "Trusted: numpy comparisons and min/max; sklearn's check_random_sta
 TECHNIQUE = "runtime postcondition monitors (closed-box predicate, tight bounds, pad algebra, accept/reject equivalence of check_region) on every direct and nested call; seeded boundary-heavy workload"
 FLOORS = {
     "quick": {"eval:inside": 600, "eval:get_region": 350, "eval:pad_region": 380, "eval:scatter_points": 600, "eval:project_region": 60,
-              "eval:maxabs": 160, "eval:check_region": 2400, "eval:rejection": 900, "eval:grid_nodes_inside": 200, "distinct_nontrivial": 1300, "eval:arguments_unmodified": 5000, "class:get_region_wide_dtype": 40, "class:region_as_ndarray": 60, "class:inside_nan_coordinates": 70, "class:projection_polar": 12},
+              "eval:maxabs": 160, "eval:check_region": 2400, "eval:rejection": 900, "eval:grid_nodes_inside": 200, "distinct_nontrivial": 1300, "eval:arguments_unmodified": 5000, "class:get_region_wide_dtype": 40, "class:region_as_ndarray": 60, "class:inside_nan_coordinates": 70, "class:projection_polar": 12, "class:maxabs_masked_array": 40, "class:concurrent_calls": 12},
     "thorough": {"eval:inside": 8000, "eval:get_region": 4500, "eval:check_region": 30000, "eval:rejection": 10000, "distinct_nontrivial": 15000},
 }
 JOBS = {"quick": 1, "thorough": 16}
@@ -47,8 +47,8 @@ AMBIENT_FILES = ['test_coordinates.py', 'test_projections.py', 'test_base.py', '
 
 def plan(tier):
     if tier == "quick":
-        return collections.OrderedDict(inside=80, get_region=60, pad=40, scatter=40, project=30, maxabs=40, reject=40, nodes=40, nested=12)
-    return collections.OrderedDict(inside=1200, get_region=900, pad=600, scatter=500, project=300, maxabs=600, reject=500, nodes=500, nested=150, ambient=6)
+        return collections.OrderedDict(inside=80, get_region=60, pad=40, scatter=40, project=30, maxabs=40, reject=40, nodes=40, nested=12, threads=6)
+    return collections.OrderedDict(inside=1200, get_region=900, pad=600, scatter=500, project=300, maxabs=600, reject=500, nodes=500, nested=150, threads=120, ambient=6)
 
 
 def _valid_region(region):
@@ -217,13 +217,22 @@ def install(tap, run):
             return
         arrays, nan = ev.args["args"], ev.args["nan"]
         run.evaluated("maxabs")
-        flat = np.concatenate([np.abs(np.asarray(a, dtype="float64")).ravel() for a in arrays])
+        def visible(a):  # the values of an array: for a masked array those that are not masked
+            if isinstance(a, np.ma.MaskedArray):
+                return np.asarray(np.ma.getdata(a), dtype="float64")[~np.ma.getmaskarray(a)]
+            return np.asarray(a, dtype="float64").ravel()
+
+        if any(isinstance(a, np.ma.MaskedArray) for a in arrays):
+            run.count("class:maxabs_masked_array")
+            if any(visible(a).size == 0 for a in arrays):
+                return  # an entirely masked array has no values
+        flat = np.concatenate([np.abs(visible(a)) for a in arrays])
         has_nan = bool(np.isnan(flat).any())
         if nan:
             if np.isnan(flat).all():
                 return  # nothing but NaN: the largest absolute value is undefined
             want = np.nanmax(flat)  # NaN-aware: NaNs (even a whole array of them, in any position) are ignored
-            if any(np.isnan(np.asarray(a, dtype="float64")).all() for a in arrays):
+            if any(np.isnan(visible(a)).all() for a in arrays):
                 run.count("class:maxabs_all_nan_array")
         else:
             want = np.max(flat)
@@ -542,8 +551,16 @@ def run_case(run, tap, stream, index, rng):
                         arr = -np.abs(arr)
                     if rng.random() < 0.15 and not np.isnan(arr).any():
                         arr = np.round(arr).astype("int64")
-                    arrays.append(arr if rng.random() < 0.8 else arr.tolist())
-                has_nan = any(np.isnan(np.asarray(a, dtype="float64")).any() for a in arrays)
+                    if rng.random() < 0.25 and np.size(arr) > 1 and not np.isnan(np.asarray(arr, dtype="float64")).any():
+                        # a masked array (blanked grid nodes): what is stored under the mask - a huge fill value, inf, NaN - is not a value
+                        arr = np.array(arr, dtype="float64")
+                        hide = rng.random(arr.shape) < 0.4
+                        hide.ravel()[int(rng.integers(0, arr.size))] = True
+                        hide.ravel()[int(rng.integers(0, arr.size))] = False
+                        arr[hide] = float(rng.choice([-9999.0, 1e20, np.inf, np.nan, -1e300]))
+                        arr = np.ma.MaskedArray(arr, mask=hide)
+                    arrays.append(arr if rng.random() < 0.8 or isinstance(arr, np.ma.MaskedArray) else arr.tolist())
+                has_nan = any(np.isnan(np.asarray(np.ma.filled(a, 0.0) if isinstance(a, np.ma.MaskedArray) else a, dtype="float64")).any() for a in arrays)
                 with np.errstate(all="ignore"):
                     res = vd.maxabs(*arrays) if rng.random() < 0.6 else vd.maxabs(*arrays, nan=False)
                     if len(arrays) > 1:  # the answer cannot depend on the order of the arguments
@@ -553,6 +570,36 @@ def run_case(run, tap, stream, index, rng):
                         if not ((np.isnan(rev) and np.isnan(fwd)) or rev == fwd):
                             run.violation("maxabs_order", "maxabs depends on the order of its arguments", {"arrays": [np.asarray(a) for a in arrays], "forward": float(fwd), "reversed": float(rev)}, key="maxabs-order")
             run.sample("maxabs", {"arrays": [np.asarray(a) for a in arrays], "result": float(res)})
+        elif stream == "threads":
+            # concurrent calls in one process (thread pool, dask threaded scheduler): each call is judged on its own by the monitors;
+            # scratch space kept at module level would let one call see another's intermediate results
+            from .. import core as _core
+
+            nthreads = int(rng.choice([2, 3, 4]))
+            size = int(rng.choice([500, 20000, 400000]))
+            shape = (size,) if rng.random() < 0.6 else (int(size // 100) or 1, 100)
+            jobs = []
+            for k in range(nthreads):
+                sub = np.random.default_rng(int(rng.integers(0, 2 ** 31)))
+                reg = [float(-1 - k), float(2 + 0.5 * k), float(10 * k), float(10 * k + 3)]
+                east = sub.uniform(reg[0] - 1, reg[1] + 1, shape)
+                north = sub.uniform(reg[2] - 1, reg[3] + 1, shape)
+
+                def job(east=east, north=north, reg=reg, seed=int(sub.integers(0, 10 ** 6))):
+                    vd.inside((east, north), reg)
+                    vd.get_region((east, north))
+                    vd.pad_region(reg, (0.5, 0.25))
+                    vd.scatter_points(reg, 50, random_state=seed)
+                    vd.grid_coordinates(reg, shape=(7, 9))
+                    return vd.maxabs(east, north)
+                jobs.append(job)
+            for res, exc in _core.run_threads(jobs, rounds=int(4 if size > 100000 else 25)):
+                if isinstance(exc, TimeoutError):
+                    run.note_inconclusive("threads: %r" % (exc,))
+                elif exc is not None:
+                    run.violation("threads", "a call raised %r when made concurrently from %d threads" % (exc, nthreads), {"size": size}, key="threads-raised")
+            run.count("class:concurrent_calls", len(jobs))
+            run.sample("threads", {"threads": nthreads, "shape": shape})
         elif stream == "reject":
             _reject(run, rng, vd)
         elif stream == "nodes":
